@@ -24,6 +24,7 @@ structure DState where
   q : QState := { reg := RegState.init }
   rates : List (String × Rate) := []
   mcNames : List String := []          -- converter names, id = position
+  convNames : List (String × Nat) := []   -- named generic converters -> table id
 
 def DState.init : DState := {}
 
@@ -341,6 +342,52 @@ def stepReg (st : DState) (args : List String) : Option (DState × String) :=
         let old := q.clsConverters c
         let convs := (q.converters.filter fun p => p.1 != c) ++ [(c, old ++ [tid])]
         some ({ st with q := { q with tables := q.tables ++ [{ rows := rws }], converters := convs } }, "ok")
+  | ["conv_obj", name, _cls, rows] =>
+    -- a table converter object, not yet registered anywhere
+    let parsed := (rows.splitOn ";").mapM fun row =>
+      match row.splitOn ":" with
+      | [ft, k, o] =>
+        match ft.splitOn ">", parseRat? k, parseRat? o with
+        | [f, t], some k, some o =>
+          match unitId? r f, unitId? r t with
+          | some f, some t => some ((f, t), (k, o))
+          | _, _ => none
+        | _, _, _ => none
+      | _ => none
+    match parsed with
+    | none => some (st, bad)
+    | some rws =>
+      let tid := q.tables.length
+      some ({ st with q := { q with tables := q.tables ++ [{ rows := rws }] },
+                      convNames := st.convNames ++ [(name, tid)] }, "ok")
+  | ["conv_reg", cls, name] =>
+    -- `register_converter`: does nothing if the converter is already registered
+    match clsId? r cls, st.convNames.lookup name with
+    | some c, some tid =>
+      let old := q.clsConverters c
+      if old.contains tid then some (st, "ok")
+      else
+        let convs := (q.converters.filter fun p => p.1 != c) ++ [(c, old ++ [tid])]
+        some ({ st with q := { q with converters := convs } }, "ok")
+    | _, _ => some (st, bad)
+  | ["conv_unreg", cls, name] =>
+    -- `remove_converter`: `list.remove`, ValueError if not present
+    match clsId? r cls, st.convNames.lookup name with
+    | some c, some tid =>
+      let old := q.clsConverters c
+      if old.contains tid then
+        let convs := (q.converters.filter fun p => p.1 != c) ++ [(c, old.erase tid)]
+        some ({ st with q := { q with converters := convs } }, "ok")
+      else some (st, "err ValueError")
+    | _, _ => some (st, bad)
+  | ["conv_list", cls] =>
+    -- `registered_converters()`: most recently registered first
+    match clsId? r cls with
+    | some c =>
+      let names := (q.clsConverters c).reverse.map fun tid =>
+        ((st.convNames.find? fun p => p.2 == tid).map Prod.fst).getD "?"
+      some (st, "ok " ++ ",".intercalate names)
+    | none => some (st, bad)
   | ["prefix", const] =>
     -- the SI prefix bound to the module-level constant `const` of
     -- si_prefixes.py (translated table): name, abbreviation, factor
